@@ -25,7 +25,7 @@ impl Scenario for Wire {
         "seeded streams of 1..6 messages (subject, boundary-biased value incl. lengths around multiples of the 16 KiB chunk window, sink) + suffix, decoded in order from one drawn source stack with benign nondeterminism only (short reads, EINTR, unknown length, defaulted read_byte, non-binding wrapper layers, shared-buffer input); non-trivial = a benign fault fired, or more than one seam call, or (un-instrumented slice/Cursor bases) more than one encoded byte"
     }
     fn cases(&self, tier: Tier) -> u64 {
-        tiered(tier, 400_000, 40_000_000)
+        tiered(tier, 1_500_000, 60_000_000)
     }
 
     fn gen(&self, seed: u64, idx: u64, _tier: Tier) -> Plan {
